@@ -13,8 +13,8 @@ import numpy as np
 from mc import runner
 
 PID = "C16"
-MINS = (0.0, -1.0, 0.1, -0.35, 1 / 3, -20.3, 1000.1)
-SPACINGS = (0.1, 0.3, 1 / 3, 0.7, 0.05, 0.03125, 60.3, 1e-3)
+MINS = (0.0, -1.0, 0.1, -0.35, 1 / 3, -20.3, 1000.1, -2)    # last: int
+SPACINGS = (0.1, 0.3, 1 / 3, 0.7, 0.05, 0.03125, 60.3, 1e-3, 1)   # last: int
 ORDERS = (2, 4, 6, 8)
 
 
